@@ -12,6 +12,7 @@ import NetqasmVerif.Driver.Transpile
 import NetqasmVerif.Driver.Exec
 import NetqasmVerif.Driver.Epr
 import NetqasmVerif.Driver.Asm
+import NetqasmVerif.Driver.Sdk
 open Lean NQ.Drv
 
 def handlers : List (String → Json → Option Json) := [
@@ -28,7 +29,8 @@ def handlers : List (String → Json → Option Json) := [
   handleTranspile,
   handleExec,
   handleEpr,
-  handleAsm]
+  handleAsm,
+  handleSdk]
 
 def dispatch (j : Json) : Json :=
   match (jField? j "op").bind jStr? with
